@@ -335,6 +335,59 @@ def write_evidence(eng, prop, tier, seed, results, n_viol, known_hits, det, harn
         json.dump(ev, f, indent=1, sort_keys=True, default=str)
 
 
+def _sweep_stale_tmp(base):
+    """Scratch directories of check processes that no longer exist (killed runs)."""
+    import re
+    import shutil
+    try:
+        names = os.listdir(base)
+    except OSError:
+        return
+    for n in names:
+        m = re.match(r"verif-tmp-(\d+)-", n)
+        if m and not os.path.exists("/proc/%s" % m.group(1)):
+            shutil.rmtree(os.path.join(base, n), ignore_errors=True)
+
+
+def supervise(argv):
+    """Run the check in a fresh interpreter (fixed hash seed) whose every temporary file - the harness's and
+    the ones pysaml2 itself leaves behind - lives in one scratch directory that is removed afterwards."""
+    import shutil
+    import signal
+    import subprocess
+    import tempfile
+    base = tempfile.gettempdir()
+    _sweep_stale_tmp(base)
+    tmp = tempfile.mkdtemp(prefix="verif-tmp-%d-" % os.getpid(), dir=base)
+    env = dict(os.environ, TMPDIR=tmp, VERIF_TMP=tmp)
+    env.setdefault("PYTHONHASHSEED", "0")
+    env.setdefault("PYTHONWARNINGS", "ignore")
+
+    def _pdeath():
+        try:
+            import ctypes
+            ctypes.CDLL("libc.so.6").prctl(1, signal.SIGTERM)      # PR_SET_PDEATHSIG
+        except Exception:
+            pass
+    p = subprocess.Popen([PY, os.path.join(VERIF, "bin", "check")] + list(argv), env=env, preexec_fn=_pdeath)
+
+    def _forward(signum, frame):
+        try:
+            p.terminate()
+        except Exception:
+            pass
+    for sg in (signal.SIGTERM, signal.SIGINT, signal.SIGHUP):
+        signal.signal(sg, _forward)
+    try:
+        rc = p.wait()
+    finally:
+        shutil.rmtree(tmp, ignore_errors=True)
+    if rc < 0:
+        # killed by a signal: never report that as "held"
+        return 128 - rc
+    return rc
+
+
 def main(argv):
     import argparse
     ap = argparse.ArgumentParser()
@@ -345,10 +398,8 @@ def main(argv):
     ap.add_argument("--seed", type=int, default=None)
     ap.add_argument("--one", type=int, default=None, help="run one seed verbosely")
     a = ap.parse_args(argv)
-    if os.environ.get("PYTHONHASHSEED") is None:
-        os.environ["PYTHONHASHSEED"] = "0"
-        os.environ["PYTHONWARNINGS"] = "ignore"
-        os.execv(PY, [PY, os.path.join(VERIF, "bin", "check")] + argv)
+    if os.environ.get("PYTHONHASHSEED") is None or not os.environ.get("VERIF_TMP"):
+        return supervise(argv)
     sys.path.insert(0, VERIF)
     if a.replay:
         rp, res, hit = replay_file(a.replay)
